@@ -7,6 +7,8 @@
 (* last line); it emits the file cases (shapes covering every residue      *)
 (* modulo six, 1..3 atoms) and the unit factor, and judges the line layout *)
 (* (tokens per line) observed in the files written by the implementation.  *)
+(* CubeExtraCases: forms of the data / geometry arrays, a file without     *)
+(* atoms, wide coordinates, a file name written twice (same judge).        *)
 (***************************************************************************)
 EXTENDS Cubic, Json, Obs_cube      \* CubeObs (generated; <<>> when emitting)
 
